@@ -1,14 +1,96 @@
 /-
-  C14 (second file) — SHA-256 and the integrity-check dispatch. Property theorems only.
+  C14 (second file) — SHA-256 and the integrity-check dispatch. Property theorems and non-vacuity examples only;
+  helper lemmas are in Lemmas/Sha256Bits.lean, Sha256Transform.lean, Sha256Stream.lean, Check.lean.
+  `sha256` is the FIPS 180-4 definition (Model/Sha256.lean part i); `transformC`/`updateC`/`finishC`/`sha256C` model
+  sha256.c as written (part ii); `Gen.C14.*` is regenerated from the source on every run.
 -/
 import XzVerif.Model.Sha256
 import XzVerif.Model.Check
 import XzVerif.Gen.C14
+import XzVerif.Lemmas.Sha256Bits
+import XzVerif.Lemmas.Sha256Transform
+import XzVerif.Lemmas.Sha256Stream
+import XzVerif.Lemmas.Check
 
 namespace XzVerif.C14
 open XzVerif.Sha256
 
-/-- SHA256_K in sha256.c (regenerated from the source) is the FIPS 180-4 table. -/
+/-- `SHA256_K[64]` in sha256.c is the FIPS 180-4 table (which Model/Sha256.lean derives from the first 64 primes). -/
 theorem sha256K_correct : Gen.C14.sha256K.map (BitVec.ofNat 32) = K := by decide +kernel
+
+/-- The state written by `lzma_sha256_init` is the FIPS 180-4 initial hash value, and the byte counter starts at 0. -/
+theorem sha256Init_correct : Gen.C14.sha256Init.map (BitVec.ofNat 32) = H0 ∧ Gen.C14.sha256InitSize = 0 := by
+  decide +kernel
+
+/-- The nested-rotate forms of the macros `S0 S1 s0 s1` and the `Ch`/`Maj` variants of sha256.c equal the textbook
+    functions Σ0 Σ1 σ0 σ1 Ch Maj of FIPS 180-4 §4.1.2, for all 32-bit words. -/
+theorem sha_sigma_forms (x y z : W32) :
+    S0 x = bsig0 x ∧ S1 x = bsig1 x ∧ s0 x = ssig0 x ∧ s1 x = ssig1 x ∧ ChC x y z = Ch x y z ∧ MajC x y z = Maj x y z :=
+  ⟨S0_eq x, S1_eq x, s0_eq x, s1_eq x, ChC_eq x y z, MajC_eq x y z⟩
+
+/-- `transform()` (16-word rolling `W`, rotating `T[(k-i)&7]`, unrolled R0/R2) with the `SHA256_K` of the source
+    computes the FIPS compression function, for every 8-word state and every 16-word block. -/
+theorem sha_transform_eq (state data : List W32) (hs : state.length = 8) (hd : data.length = 16) :
+    transformC (Gen.C14.sha256K.map (BitVec.ofNat 32)) state data = (compress (St.ofList state) data).toList := by
+  rw [sha256K_correct]; exact transformC_eq state data hs hd
+
+/-- init / update over ANY consecutive pieces (empty pieces allowed) / finish, as sha256.c does it (64-byte buffering,
+    padding loop, big-endian bit length), with the constants of the source, yields FIPS 180-4 SHA-256 of the
+    concatenation. `buf0` is whatever the 64-byte buffer contained before. (`sha256` is the standard for messages
+    shorter than 2^61 bytes; beyond that both sides use the bit length modulo 2^64.) -/
+theorem sha_stream_eq (buf0 : List UInt8) (hb : buf0.length = 64) (pieces : List (List UInt8)) :
+    sha256C (Gen.C14.sha256K.map (BitVec.ofNat 32)) (Gen.C14.sha256Init.map (BitVec.ofNat 32)) buf0 pieces
+      = sha256 pieces.flatten := by
+  rw [sha256K_correct, sha256Init_correct.1]; exact sha256C_eq buf0 hb pieces
+
+/-- Chunking independence of SHA-256 as computed by the C code: only the concatenation matters. -/
+theorem sha_chunking (b1 b2 : List UInt8) (h1 : b1.length = 64) (h2 : b2.length = 64) (p1 p2 : List (List UInt8))
+    (h : p1.flatten = p2.flatten) :
+    sha256C (Gen.C14.sha256K.map (BitVec.ofNat 32)) (Gen.C14.sha256Init.map (BitVec.ofNat 32)) b1 p1
+      = sha256C (Gen.C14.sha256K.map (BitVec.ofNat 32)) (Gen.C14.sha256Init.map (BitVec.ofNat 32)) b2 p2 := by
+  rw [sha_stream_eq b1 h1, sha_stream_eq b2 h2, h]
+
+/-- The buffering of `lzma_sha256_update/finish` is chunking independent for ANY block function (so this does not
+    rest on `sha_transform_eq`): the final state is the fold over the blocks of the padded concatenation. -/
+theorem sha_buffering_generic (tr : List W32 → List UInt8 → List W32) (s0 : List W32) (buf0 : List UInt8)
+    (hb : buf0.length = 64) (pieces : List (List UInt8)) :
+    (finishC tr (pieces.foldl (updateC tr) (initC s0 buf0))).state = (blocks (pad pieces.flatten)).foldl tr s0 :=
+  (stream_generic tr s0 buf0 hb pieces).1
+
+/-! ### check.c -/
+
+/-- `lzma_check_size()` for IDs 0…15 and above agrees with the sizes of file-format.txt 2.1.1.2. -/
+theorem check_sizes_correct : Gen.C14.checkSizes = (List.range 17).map Check.checkSize ∧ Gen.C14.checkIdMax = Check.idMax := by
+  decide +kernel
+
+/-- `lzma_check_is_supported()`: None, CRC32, CRC64, SHA-256 and nothing else (in the build at hand). -/
+theorem check_supported_correct : Gen.C14.checkSupported = (List.range 17).map Check.isSupported := by decide +kernel
+
+/-- The parameters of the dispatch model taken from the source. -/
+def implOfSource : Check.Impl :=
+  { crc32 := Crc.crc32Ref, crc64 := Crc.crc64Ref,
+    shaK := Gen.C14.sha256K.map (BitVec.ofNat 32), shaInit := Gen.C14.sha256Init.map (BitVec.ofNat 32) }
+
+/-- `lzma_check_init/update*/finish` over any pieces: the Check field (first `lzma_check_size(id)` bytes of the buffer)
+    is the little-endian CRC32 / CRC64 or the SHA-256 of the concatenation; for every other ID nothing is written. -/
+theorem check_dispatch (s0 : Check.State) (hb : s0.buf.length = 64) (pieces : List (List UInt8)) :
+    Check.run implOfSource 1 s0 pieces = Check.le32bytes (Crc.crc32Ref pieces.flatten 0) ∧
+    Check.run implOfSource 4 s0 pieces = Check.le64bytes (Crc.crc64Ref pieces.flatten 0) ∧
+    Check.run implOfSource 10 s0 pieces = sha256 pieces.flatten ∧
+    ∀ id, id ≠ 1 → id ≠ 4 → id ≠ 10 →
+      Check.run implOfSource id s0 pieces = s0.buf.take (if Check.checkSize id ≤ 64 then Check.checkSize id else 0) :=
+  ⟨Check.run_crc32 _ rfl s0 pieces, Check.run_crc64 _ rfl s0 pieces,
+   Check.run_sha256 _ sha256K_correct sha256Init_correct.1 s0 hb pieces,
+   fun id h1 h4 h10 => Check.run_other _ id h1 h4 h10 s0 pieces⟩
+
+/-! ### non-vacuity: FIPS 180-4 / NIST example values -/
+
+example : sha256 [0x61, 0x62, 0x63] =
+    [0xba, 0x78, 0x16, 0xbf, 0x8f, 0x01, 0xcf, 0xea, 0x41, 0x41, 0x40, 0xde, 0x5d, 0xae, 0x22, 0x23,
+     0xb0, 0x03, 0x61, 0xa3, 0x96, 0x17, 0x7a, 0x9c, 0xb4, 0x10, 0xff, 0x61, 0xf2, 0x00, 0x15, 0xad] := by decide +kernel
+
+example : sha256 [] =
+    [0xe3, 0xb0, 0xc4, 0x42, 0x98, 0xfc, 0x1c, 0x14, 0x9a, 0xfb, 0xf4, 0xc8, 0x99, 0x6f, 0xb9, 0x24,
+     0x27, 0xae, 0x41, 0xe4, 0x64, 0x9b, 0x93, 0x4c, 0xa4, 0x95, 0x99, 0x1b, 0x78, 0x52, 0xb8, 0x55] := by decide +kernel
 
 end XzVerif.C14
